@@ -128,6 +128,37 @@ def _term_values_by_interpretation(r2, db, f, cls, cfgname):
 
 
 
+def interp_multiterm(db, f, syms):
+    """evaluate the extracted body of addMultiterm on symbolic arguments (every tolerance comparison answered `not
+    negligible`); returns the terms that reach the lists as (class, list, coefficients, poles, flag)"""
+    from pv.summ import Interp, Obj, Thrown
+    out = []
+
+    def mk(cls, ncoef):
+        def ctor(fr, i, args):
+            if len(args) != ncoef + 4:
+                fr.bad(i, "%s constructed from %d arguments" % (cls, len(args)))
+            return Obj(cls, coefs=[sp.sympify(a) for a in args[:ncoef]], poles=[sp.sympify(a) for a in args[ncoef:ncoef + 3]], flag=int(bool(args[ncoef + 3])))
+        return ctor
+
+    def add(fr, i, obj, args):
+        if not (isinstance(obj, Obj) and obj.cls == "termlist" and len(args) == 1 and isinstance(args[0], Obj) and args[0].cls in (NR, RT)):
+            fr.bad(i, "add_term on something else than one of the two term lists")
+        t_ = args[0]
+        out.append((t_.cls, obj.f["of"], t_.f["coefs"], t_.f["poles"], t_.f["flag"]))
+        return None
+    prims = {"construct " + NR: mk(NR, 1), "construct " + RT: mk(RT, 2), "Pomerol::TermList::add_term": add}
+    this = Obj("part", **{P + "::NonResonantTerms": Obj("termlist", of=NR), P + "::ResonantTerms": Obj("termlist", of=RT),
+                          P + "::CoefficientTolerance": sp.Symbol("tol", positive=True), P + "::ReduceResonanceTolerance": sp.Symbol("rtol", positive=True)})
+    ip = Interp(db, prims)
+    ip.oracle = lambda fr, i, op, a, b: op in (">", ">=")       # |coefficient| > tolerance: the coefficient counts
+    try:
+        ip.call_fn(f, list(syms), this=this)
+    except Thrown as t:
+        raise AnalysisBroken("%s: interpreted summary throws %s at %s" % (f.qn, t.tt, t.where))
+    return out
+
+
 def body(chk, db, cfgname):
     # ================================================================== R1
     r1 = chk.rule("C02-R1", "multi-term of Hafermann et al.: poles and the six coefficients handed to the term lists", "F6 formula", 6)
@@ -177,9 +208,43 @@ def body(chk, db, cfgname):
                 r1.bad(site, f.loc(j), "; ".join(probs), cfgname)
             else:
                 r1.ok(site, f.loc(j), "coefficients %s, poles (Ej-Ei, Ek-Ej, El-Ek)" % ", ".join(str(w) for w in want[key]), cfgname)
-        for key in want:
-            if key not in seen:
-                r1.bad("%s::addMultiterm:%s" % (P, label[key]), f.loc(), "this part of the multi-term is never added", cfgname)
+        missing = [key for key in want if key not in seen]
+        if missing:
+            # the add_term calls may sit in helpers / closures (addNonResonant(C, flag), ...): evaluate the extracted body on
+            # symbolic arguments with every coefficient taken as non-negligible and compare what reaches the two lists
+            delegated = any(n_.get("lambda") or (n_["k"] == "call" and n_.get("ck") in ("func", "method") and (db.callee_fn(n_) is not None) and db.callee_fn(n_).body is not None
+                                                  and strip_targs(n_.get("cname") or "") != "Pomerol::TermList::add_term" and (db.callee_fn(n_).file or "").startswith(f.file.rsplit("/src/", 1)[0]))
+                            for _, n_ in f.walk(f.body) if n_["k"] == "call")
+            got_terms = None
+            if delegated:
+                try:
+                    got_terms = interp_multiterm(db, f, [S[nm] for nm in names])
+                except AnalysisBroken as e_:
+                    r1.unknown(P + "::addMultiterm:delegated", f.loc(), "the terms are added through helpers / closures and the body could not be interpreted: %s" % e_, cfgname)
+                    missing = []
+            for key in missing:
+                site = "%s::addMultiterm:%s" % (P, label[key])
+                if got_terms is None:
+                    r1.bad(site, f.loc(), "this part of the multi-term is never added", cfgname)
+                    continue
+                mine = [t_ for t_ in got_terms if (t_[0], t_[4]) == key]
+                if len(mine) != 1:
+                    r1.bad(site, f.loc(), "this part of the multi-term is added %d times (interpreted summary)" % len(mine), cfgname)
+                    continue
+                cls_, lst_, coefs_, poles_, _fl = mine[0]
+                probs = []
+                if lst_ != cls_:
+                    probs.append("the term is added to the wrong list")
+                for i, (g_, w_) in enumerate(zip(coefs_, want[key])):
+                    if not F.equal(g_, w_):
+                        probs.append("coefficient %d is %s, expected %s" % (i + 1, g_, w_))
+                for i, (g_, w_) in enumerate(zip(poles_, want_poles)):
+                    if not F.equal(g_, w_):
+                        probs.append("pole P%d is %s, expected %s" % (i + 1, g_, w_))
+                if probs:
+                    r1.bad(site, f.loc(), "; ".join(probs) + " (interpreted summary)", cfgname)
+                else:
+                    r1.ok(site, f.loc(), "coefficients %s, poles (Ej-Ei, Ek-Ej, El-Ek) (added through a helper; interpreted summary)" % ", ".join(str(w) for w in want[key]), cfgname)
     # constructors bind (coefficients, poles, flag) to the members operator() reads
     for cls, fields in ((NR, ["Coeff"]), (RT, ["ResCoeff", "NonResCoeff"])):
         ctor = [x for x in db.fns_named(cls + "::" + cls.split("::")[-1]) if x.kind == "ctor" and len(x.params) == len(fields) + 4]
